@@ -65,6 +65,7 @@ def main():
     ap.add_argument("--workers", type=int, default=3)
     ap.add_argument("--jobs", type=int, default=4)
     ap.add_argument("--own", action="store_true", help="re-run the property's own (strengthened) check")
+    ap.add_argument("--tests-only", action="store_true", help="only mutants that the package's tests notice")
     a = ap.parse_args()
     global OWN
     OWN = a.own
@@ -75,6 +76,8 @@ def main():
         recs = [json.loads(ln) for ln in f.read_text().splitlines()]
         todo = [r for r in recs if r["status"] != "KILLED" and not r["status"].startswith(("SYNTAX", "NOOP"))
                 and ("rechecked" not in r or (OWN and not r.get("killed_by_other")))]
+        if a.tests_only:
+            todo = [r for r in todo if "TESTS-KILL" in r["status"] and "hypothesis" not in r.get("suite_first", "")]
         print(f.stem, len(todo), "to recheck", flush=True)
         with ThreadPoolExecutor(a.workers) as ex:
             for r in ex.map(lambda r: recheck(r, a.jobs), todo):
